@@ -12,7 +12,7 @@ CASE_TYPE = 'C17.case'
 
 # location classes and query kinds are interned as the atoms Model/Purity.v declares
 CLASS_ATOM = {'field': 1, 'array_data': 2, 'array_meta': 3, 'xml': 4, 'errors': 5, 'components': 6, 'alias': 7,
-              'structure': 8, 'tricache': 20, 'imgcache': 21, 'fresh': 22}
+              'structure': 8, 'tricache': 20, 'imgcache': 21, 'fresh': 22, 'newprivate': 23}
 KIND_ATOM = {'scene_objects': 1, 'node_objects': 2, 'shapes': 3, 'polygon_triangles': 4, 'bound_triangleset': 5,
              'bound_item': 6, 'triangleset': 7, 'unbound_item': 8, 'input_list': 9, 'prim_props': 10, 'index_lib': 11,
              'print': 12, 'image_data': 13, 'source_item': 14, 'effect_eq': 15, 'partial_iter': 16, 'save': 30, 'own': 31}
